@@ -55,16 +55,26 @@ def transcripts(out, m):
     elif '@EXIT' in out or 'PANIC' in el: el = [x for x in el if x != 'PANIC'] + ['PANIC']
     return el, ml
 
+def is_go(l):
+    """a `go` line a GUI may legally send (the property's quantifier): a `depth` keyword is followed by a number.  `go depth x` and a bare
+    `go depth` are malformed; the engine returns from parse_go without searching (the model's GoReturn; the theorem's answerable_go excludes them too).
+    Such lines are still compared with the model's transcript, they just do not count as searches to be answered."""
+    t = l.split()
+    if t[:1] != ['go']: return False
+    for i, w in enumerate(t):
+        if w == 'depth' and (i + 1 >= len(t) or not re.fullmatch(r'[+-]?\d+', t[i + 1])): return False
+    return True
+
 def liveness(script, lines, exited):
     """the property itself on the canonical transcript"""
     probs = []
     n_ready = sum(1 for d, l in script if l.strip() == 'isready')
-    n_go = sum(1 for d, l in script if l.split()[:1] == ['go'])
+    n_go = sum(1 for d, l in script if is_go(l))
     n_uci = sum(1 for d, l in script if l.strip() == 'uci')
     quits = [i for i, (d, l) in enumerate(script) if l.strip() in ('quit', 'exit', 'x')]
     if quits:   # commands after the first quit are never read
         upto = script[:quits[0]]
-        n_ready = sum(1 for d, l in upto if l.strip() == 'isready'); n_go = sum(1 for d, l in upto if l.split()[:1] == ['go']); n_uci = sum(1 for d, l in upto if l.strip() == 'uci')
+        n_ready = sum(1 for d, l in upto if l.strip() == 'isready'); n_go = sum(1 for d, l in upto if is_go(l)); n_uci = sum(1 for d, l in upto if l.strip() == 'uci')
     if lines.count('readyok') != n_ready: probs.append(f'readyok-count({lines.count("readyok")} for {n_ready} isready)')
     nb = sum(1 for l in lines if l.startswith('bestmove'))
     if nb != n_go: probs.append(f'bestmove-count({nb} for {n_go} go)')
@@ -122,6 +132,10 @@ def run(ctx):
         [(0, 'move g1f3'), (0, 'move g8f6 f3g1'), (0, 'd'), (0, 'perft 3'), (0, 'go depth 1'), (LATE, 'move f6g8'), (0, 'go depth 2'), (LATE, 'd')],
         [(0, 'position fen r3k2r/p1ppqpb1/bn2pnp1/3PN3/1p2P3/2N2Q1p/PPPBBPPP/R3K2R w KQkq - 0 1'), (0, 'perft 2'), (0, 'move e1g1'), (0, 'perft 2'), (0, 'd'), (0, 'eval')],
         [(0, 'position fen 8/2p5/3p4/KP5r/1R3p1k/8/4P1P1/8 w - - 0 10 moves e2e4'), (0, 'move h4g5'), (0, 'd'), (0, 'perft! 3'), (0, 'go depth 2')],
+        # the word-by-word argument loop of `go` (Model/Uci.v go_tokens, which Proofs/GoTokens.v relates to the pair-level loop of C10): the other colour's clock
+        # arguments are skipped unparsed, unknown words are reported and skipped, a malformed or missing depth returns without searching
+        [(0, 'position startpos'), (0, 'go btime x depth 2'), (LATE, 'go foo depth 1'), (LATE, 'go depth x'), (0, 'go depth'), (0, 'go binc 7 winc 3 depth 2'),
+         (LATE, 'position startpos moves e2e4'), (0, 'go wtime y winc z depth 1'), (LATE, 'go btime 5000 wtime q movetime 0'), (LATE, 'isready')],
     ]
     n = 60 if ctx.tier == 'quick' else 3000
     for _ in range(n): sessions.append(gen_session(rng))
